@@ -131,9 +131,10 @@ Print Assumptions C08_merge_brokers_frame.
 
 (* ... so that the next resolution of such a partition performs a metadata lookup (a partial refresh: full =
    false; the load event carries the tries of that request), while a cached leader is used without any request.
-   These two are one-step unfoldings of resolve_leader, kept for the record; that the request on the wire asks
-   for exactly the payload's topic is NOT a statement about the model (the asked topic is not part of it): it is
-   checked on the implementation by the monitor only (C08_reresolve monitor, the topic parsed from the wire). *)
+   These two are one-step facts about resolve_leader.  WHAT is asked: C08_lookups_ask below - every lookup of a
+   call is a metadata request for the topic of one of its payloads (a coordinator request for its group); the
+   pair [le_kind; le_id] of every lookup is part of the trace compared with the implementation, where it is parsed
+   from the request on the wire (and checked again by the C08_reresolve monitor). *)
 Theorem C08_reresolve : forall st p u r loads st1 log gone res,
   (leader_of st (p_key p) = None \/ leader_of st (p_key p) = Some None) ->
   load_metadata st false u r = (st1, log, gone, res) ->
@@ -147,6 +148,14 @@ Theorem C08_cached_no_request : forall st p loads bm,
   leader_of st (p_key p) = Some (Some bm) -> resolve_leader st p loads = (st, loads, [], inl (fst bm)).
 Proof. exact resolve_leader_cached. Qed.
 Print Assumptions C08_cached_no_request.
+
+Theorem C08_lookups_ask : forall st group expect ps loads outs,
+  Forall (fun e => match group with
+                   | None => le_kind e = 0 /\ exists p, In p ps /\ le_id e = p_topic p
+                   | Some g => le_kind e = 1 /\ le_id e = g
+                   end) (a_loads (aware st group expect ps loads outs)).
+Proof. exact aware_loads_ask. Qed.
+Print Assumptions C08_lookups_ask.
 
 (* Bounded recovery (PARTIAL form of "resumes within the retry budget").  Proved: from ANY reachable state
    in which the partition's routing was invalidated (C08_invalidate: one failed attempt does that), if the
